@@ -85,6 +85,9 @@ def want_vars(p):
     return w
 
 
+PIN_SAMPLES = 6
+
+
 def _fidelity_witness(p, hh, rng):
     full = (len(p.domain), len(p.pc), len(p.defs), len(p.assumes))
     base = _constraints(p, full)
@@ -221,7 +224,7 @@ def _sym_worker(pid, hname, tier, conn, quick_ms, roots=None):
                         result['records'].append(dict(path=pi, name=c['name'], kind='check', status='unsat', by='simplifier',
                                                       secs=0.0))
                     else:
-                        obls.append(dict(name=c['name'], kind='check', bad=c['bad'], snap=c['snap']))
+                        obls.append(dict(name=c['name'], kind='check', bad=c['bad'], snap=c['snap'], mask=c.get('mask'), exact=c.get('exact')))
             for ev in p.events:
                 result['events'].append(ev)
             # reachability witness
@@ -258,7 +261,16 @@ def _sym_worker(pid, hname, tier, conn, quick_ms, roots=None):
                     # definitions of auxiliary symbols are dropped (a model is replayed on the real code anyway)
                     d_, c_, f_, a_ = o['snap']
                     light = p.domain[:d_] + p.pc[:c_]
+                    # first with the definitions (a model that respects sqrt / trig symbols replays), then without
+                    stf, envf, dtf = solve.solve_inproc(base + [o['bad']], tmo, want_vars(p))
                     st, env, dt = solve.solve_inproc(light, tmo, want_vars(p))
+                    if stf == 'sat':
+                        rec = dict(path=pi, name=o['name'], kind=o['kind'], status='sat', by='z3-5.1-inproc',
+                                   secs=round(dtf + dt, 3), env=_envjson(fix_angles(envf, angle_info(p))))
+                        if st == 'sat':
+                            rec['alt_envs'] = [_envjson(fix_angles(env, angle_info(p)))]
+                        result['records'].append(rec)
+                        continue
                     if st == 'sat':
                         result['records'].append(dict(path=pi, name=o['name'], kind=o['kind'], status='sat', by='z3-5.1-inproc',
                                                       secs=round(dt, 3), env=_envjson(fix_angles(env, angle_info(p)))))
@@ -277,6 +289,10 @@ def _sym_worker(pid, hname, tier, conn, quick_ms, roots=None):
                         result['records'].append(dict(path=pi, name=o['name'], kind=o['kind'], status='unsat',
                                                       by='z3-5.1 (square abstraction)', secs=round(time.time() - tq, 3)))
                         continue
+                try:
+                    cons = solve.pin(cons)
+                except Exception:
+                    pass
                 st, env, dt = solve.solve_inproc(cons, tmo, want_vars(p))
                 by = 'z3-5.1-inproc'
                 rec = dict(path=pi, name=o['name'], kind=o['kind'], status=st, by=by, secs=round(dt, 3))
@@ -305,10 +321,37 @@ def _sym_worker(pid, hname, tier, conn, quick_ms, roots=None):
                         if st3 == 'sat':
                             alts.insert(0, _envjson(fix_angles(env3, angle_info(p))))
                     rec['alt_envs'] = alts
-                elif st == 'unknown':
+                if st == 'unknown' and o.get('mask') is not None and o.get('exact'):
+                    # model search guided by the shadow samples: the inputs are pinned to the exact rational value of a
+                    # sample that followed this path; the solver evaluates the remaining (auxiliary) symbols
+                    tried = 0
+                    for k in _np.nonzero(o['mask'])[0][:PIN_SAMPLES]:
+                        pins = []
+                        for n, v in p.inputs.items():
+                            ex = o['exact'].get(n)
+                            if ex is not None and ex[k] is not None and v.sort() == z3.RealSort():
+                                pins.append(v == z3.RealVal(str(ex[k])))
+                        if not pins:
+                            break
+                        tried += 1
+                        try:
+                            pc_ = solve.pin(pins + list(cons))
+                        except Exception:
+                            pc_ = pins + list(cons)
+                        stp, envp, dtp = solve.solve_inproc(pc_, 400, want_vars(p))
+                        dt += dtp
+                        if stp == 'sat':
+                            st = 'sat'
+                            rec.update(status='sat', by='z3-5.1-inproc (inputs pinned to a shadow sample)', secs=round(dt, 3),
+                                       env=_envjson(fix_angles(envp, angle_info(p))), alt_envs=[])
+                            break
+                    rec['pinned_tried'] = tried
+                if st == 'unknown':
                     rec['smt2'] = solve.to_smt2(cons)
                     rec['vars'] = list(want_vars(p))
                     rec['angles'] = angle_info(p)
+                    if os.environ.get('SYMNP_DUMP'):
+                        open(os.path.join(os.environ['SYMNP_DUMP'], f"{hname.replace('/', '_')}_{pi}_{len(result['records'])}.smt2"), 'w').write(rec['smt2'])
                 result['records'].append(rec)
         result['reach'] = reach
         result['stats'] = dict(CTX.stats)
